@@ -246,6 +246,7 @@ inline auto exec_plan(Plan const& plan, Scenario const& sc, bool text) -> ExecRe
 {
     Ctx ctx;
     ctx.log.text = text;
+    ctx.running  = plan.property;
     g_ctx        = &ctx;
     reg().reset();
     arena_reset_all();
